@@ -29,6 +29,7 @@ CONSTANTS HRR,                \* server answers the first ClientHello with Hello
           MaxDrop, MaxDup, MaxTimeouts, BackoffCap,
           ResendHRR,          \* a repeated ClientHello makes the server send its HelloRetryRequest again (TRUE since the
                               \* "fix:" commit 13cb030; FALSE = pinned tree: a lost HelloRetryRequest was never recovered)
+          PostTimeouts,       \* further time-outs that only an established server with an unacknowledged ticket flight may take
           Cap,                \* identical copies of one datagram kind in flight at once (further emissions are merged)
           Gen
 
@@ -48,11 +49,13 @@ VARIABLES st,      \* "Waiting" | "Finished"
                    \* acknowledgement the client sends flushes all of them (conn.pendingACKs)
           net,     \* kind -> [n, d, s] as in Handshake12
           drops, dups, touts,
+          tbk,     \* doublings of the ticket flight's own retransmit interval (post-handshake flights back off like handshake flights)
+          ptouts,  \* time-outs taken from the PostTimeouts budget
           emits,   \* sequence of kinds emitted by the last action
           cause,   \* "recv" | "timer" | "start" | "none"
           hist
-vars == <<st, fl, retx, bk, got, est, tick, owe, net, drops, dups, touts, emits, cause, hist>>
-viewv == <<st, fl, retx, bk, got, est, tick, owe, net, drops, dups, touts, emits, cause>>
+vars == <<st, fl, retx, bk, got, est, tick, owe, net, drops, dups, touts, tbk, ptouts, emits, cause, hist>>
+viewv == <<st, fl, retx, bk, got, est, tick, owe, net, drops, dups, touts, tbk, ptouts, emits, cause>>
 
 PutK(n, k) == [n EXCEPT ![k].n = IF n[k].n + n[k].d < Cap THEN @ + 1 ELSE @]
 RECURSIVE PutAll(_, _)
@@ -135,14 +138,14 @@ Deliver(k, c) ==
   /\ bk' = [bk EXCEPT ![e] = r.bk] /\ est' = [est EXCEPT ![e] = r.est] /\ tick' = r.tick /\ owe' = r.owe
   /\ net' = PutAll(Take(net, k, c), r.out)
   /\ emits' = r.out /\ cause' = IF r.out = <<>> THEN "none" ELSE "recv"
-  /\ UNCHANGED <<drops, dups, touts>>
+  /\ UNCHANGED <<drops, dups, touts, tbk, ptouts>>
 
 DeliverStale(k) ==
   IF ClearHS(k) THEN Deliver(k, "s")
   ELSE /\ net[k].s > 0
        /\ net' = [net EXCEPT ![k].s = @ - 1]
        /\ emits' = <<>> /\ cause' = "none"
-       /\ UNCHANGED <<st, fl, retx, bk, got, est, tick, owe, drops, dups, touts>>
+       /\ UNCHANGED <<st, fl, retx, bk, got, est, tick, owe, drops, dups, touts, tbk, ptouts>>
 
 Drop(k, c) ==
   /\ drops < MaxDrop
@@ -150,29 +153,32 @@ Drop(k, c) ==
        [] c = "d" -> net[k].d > 0 /\ net' = [net EXCEPT ![k].d = @ - 1, ![k].n = @ + 1]
        [] c = "s" -> net[k].s > 0 /\ net' = [net EXCEPT ![k].s = @ - 1]
   /\ drops' = drops + 1 /\ emits' = <<>> /\ cause' = "none"
-  /\ UNCHANGED <<st, fl, retx, bk, got, est, tick, owe, dups, touts>>
+  /\ UNCHANGED <<st, fl, retx, bk, got, est, tick, owe, dups, touts, tbk, ptouts>>
 
 Dup(k) ==
   /\ net[k].n > 0 /\ dups < MaxDup
   /\ net' = [net EXCEPT ![k].n = @ - 1, ![k].d = @ + 1] /\ dups' = dups + 1
   /\ emits' = <<>> /\ cause' = "none"
-  /\ UNCHANGED <<st, fl, retx, bk, got, est, tick, owe, drops, touts>>
+  /\ UNCHANGED <<st, fl, retx, bk, got, est, tick, owe, drops, touts, tbk, ptouts>>
 
 \* the retransmission timer of e fires: the handshake timer while waiting, the post-handshake timer of an
 \* established server with an unacknowledged ticket flight
 Timeout(e) ==
-  /\ (MaxTimeouts < 100 => touts < MaxTimeouts)
-  /\ touts' = IF MaxTimeouts < 100 THEN touts + 1 ELSE touts
+  LET post == e = "s" /\ st["s"] = "Finished" /\ tick = "pending" IN
+  /\ \/ (MaxTimeouts < 100 => touts < MaxTimeouts) /\ touts' = (IF MaxTimeouts < 100 THEN touts + 1 ELSE touts) /\ UNCHANGED ptouts
+     \/ MaxTimeouts < 100 /\ touts >= MaxTimeouts /\ post /\ ptouts < PostTimeouts /\ ptouts' = ptouts + 1 /\ UNCHANGED touts
   /\ IF st[e] = "Waiting"
-     THEN IF retx[e] /\ fl[e] # "F0"
-          THEN /\ net' = PutK(net, fl[e]) /\ emits' = <<fl[e]>> /\ cause' = "timer"
-               /\ bk' = [bk EXCEPT ![e] = Bump(@)]
-          ELSE IF retx[e]       \* server before any ClientHello: the interval doubles, nothing to send
-          THEN /\ UNCHANGED net /\ bk' = [bk EXCEPT ![e] = Bump(@)] /\ emits' = <<>> /\ cause' = "none"
-          ELSE /\ UNCHANGED <<net, bk>> /\ emits' = <<>> /\ cause' = "none"
-     ELSE IF e = "s" /\ tick = "pending"
+     THEN /\ UNCHANGED tbk
+          /\ IF retx[e] /\ fl[e] # "F0"
+             THEN /\ net' = PutK(net, fl[e]) /\ emits' = <<fl[e]>> /\ cause' = "timer"
+                  /\ bk' = [bk EXCEPT ![e] = Bump(@)]
+             ELSE IF retx[e]       \* server before any ClientHello: the interval doubles, nothing to send
+             THEN /\ UNCHANGED net /\ bk' = [bk EXCEPT ![e] = Bump(@)] /\ emits' = <<>> /\ cause' = "none"
+             ELSE /\ UNCHANGED <<net, bk>> /\ emits' = <<>> /\ cause' = "none"
+     ELSE IF post
           THEN /\ net' = PutK(net, "T") /\ emits' = <<"T">> /\ cause' = "timer" /\ UNCHANGED bk
-          ELSE /\ UNCHANGED <<net, bk>> /\ emits' = <<>> /\ cause' = "none"
+               /\ tbk' = Bump(tbk)
+          ELSE /\ UNCHANGED <<net, bk, tbk>> /\ emits' = <<>> /\ cause' = "none"
   /\ UNCHANGED <<st, fl, retx, got, est, tick, owe, drops, dups>>
 
 Init ==
@@ -180,10 +186,10 @@ Init ==
   /\ retx = [e \in E |-> TRUE] /\ bk = [e \in E |-> 0] /\ got = [e \in E |-> {}] /\ est = [e \in E |-> FALSE]
   /\ tick = "none" /\ owe = {}
   /\ net = [k \in Kinds |-> [n |-> IF k = "F1" THEN 1 ELSE 0, d |-> 0, s |-> 0]]
-  /\ drops = 0 /\ dups = 0 /\ touts = 0 /\ emits = <<"F1">> /\ cause = "start" /\ hist = <<>>
+  /\ drops = 0 /\ dups = 0 /\ touts = 0 /\ tbk = 0 /\ ptouts = 0 /\ emits = <<"F1">> /\ cause = "start" /\ hist = <<>>
 
 PostP == [cst |-> st'["c"], sst |-> st'["s"], cfl |-> fl'["c"], sfl |-> fl'["s"], cest |-> est'["c"], sest |-> est'["s"],
-          cbk |-> bk'["c"], sbk |-> bk'["s"], emits |-> emits']
+          cbk |-> bk'["c"], sbk |-> bk'["s"], tbk |-> tbk', emits |-> emits']
 Log(a, x) == hist' = Append(hist, [act |-> a, arg |-> x, post |-> PostP])
 
 Next == \/ \E k \in Kinds : \/ \E c \in {"n", "d"} : Deliver(k, c) /\ Log("Deliver", k \o "/" \o c)
@@ -214,7 +220,7 @@ NoTimerHRR == [][(\E i \in 1..Len(emits') : emits'[i] = "F2") => cause' = "recv"
 TimerLaw13 ==
   [][\A e \in E : (cause' = "timer" /\ Timeout(e)) =>
         \/ (st[e] = "Waiting" /\ emits' = <<fl[e]>> /\ retx[e] /\ fl[e] # "F0" /\ bk'[e] = Bump(bk[e]))
-        \/ (st[e] = "Finished" /\ e = "s" /\ emits' = <<"T">>)]_vars
+        \/ (st[e] = "Finished" /\ e = "s" /\ emits' = <<"T">> /\ tbk' = Bump(tbk))]_vars
 (* acknowledgements are never sent by a timer *)
 AckNeverOnTimer == [][(\E i \in 1..Len(emits') : emits'[i] \in {"As", "Ac4", "AcT"}) => cause' = "recv"]_vars
 (* after completing, the handshake flights are re-sent only in response to the peer *)
